@@ -76,6 +76,7 @@ impl RingMonitor {
     }
 
     fn succ(set: u128, a: u8) -> u8 {
+        let a = a & 127;
         for k in 1..=128u32 {
             let x = (u32::from(a) + k) % 128;
             if set >> x & 1 == 1 {
@@ -85,6 +86,7 @@ impl RingMonitor {
         a
     }
     fn pred(set: u128, a: u8) -> u8 {
+        let a = a & 127;
         for k in 1..=128u32 {
             let x = (u32::from(a) + 128 - k) % 128;
             if set >> x & 1 == 1 {
@@ -147,6 +149,17 @@ impl RingMonitor {
     }
 }
 
+/// Do all online stations currently agree on the ring (LAS = online set, everybody in the ring)?
+pub fn agreement(w: &World) -> bool {
+    let mut set = 0u128;
+    for s in &w.stations {
+        if s.alive && s.snap.online {
+            set |= 1u128 << s.cfg.addr;
+        }
+    }
+    set != 0 && w.stations.iter().all(|s| !(s.alive && s.snap.online) || (s.snap.in_ring && s.snap.las == set))
+}
+
 pub fn fmt_set(set: u128) -> String {
     let v: Vec<String> = (0..128).filter(|a| set >> a & 1 == 1).map(|a| a.to_string()).collect();
     format!("{{{}}}", v.join(","))
@@ -196,6 +209,16 @@ impl Monitor for RingMonitor {
         }
         let bus = w.bus.borrow();
         let tx = &bus.txs[idx];
+        if tx.collided {
+            self.violate(
+                w,
+                "ring.single-token",
+                "collision-after-agreement",
+                w.addr_of_node(tx.sender),
+                format!("two stations transmit at the same time {} us after agreement was reached (two token holders)", w.to_us(w.now.saturating_sub(self.converged_at.unwrap_or(0)))),
+            );
+            return;
+        }
         if let Some(Frame::Token { da, sa }) = &tx.frame {
             let set = self.members(w);
             let a = w.addr_of_node(tx.sender).unwrap_or(255);
@@ -205,7 +228,7 @@ impl Monitor for RingMonitor {
             }
             let expected_da = Self::succ(set, *sa);
             let in_order = self.last_token_da.map(|d| d == *sa).unwrap_or(true);
-            if set >> *sa & 1 == 0 || *da != expected_da || !in_order {
+            if *sa > 127 || set >> (*sa & 127) & 1 == 0 || *da != expected_da || !in_order {
                 self.violate(
                     w,
                     "ring.order",
@@ -245,6 +268,11 @@ impl Monitor for RingMonitor {
                 }
             }
             Phase::Converging => {
+                if self.members(w) == 0 {
+                    // nobody is left online: nothing to agree on
+                    self.phase = Phase::Done;
+                    return;
+                }
                 if self.all_agree(w) {
                     self.converged_at = Some(w.now);
                     self.phase = Phase::Stable;
